@@ -44,7 +44,8 @@ def meta(tier):
                 'third a constant), automatic #endif closers and an observation suffix (#ifdef probes for SA/SB/SM, a byte '
                 'that shows the mute state, references to every label/constant a marker defined, a zone probe); '
                 'non-trivial = history with >=1 conditional directive whose reference selection both excludes and includes '
-                'at least one marker; states = distinct canonical reference states (symbols, zones, cursors, mute, labels)',
+                'at least one marker; plus the comparison product: every pair of 11 operand spellings (decimal, hex, binary, expressions, '
+                'symbols) x 6 operators, and every operand as a bare condition; states = distinct canonical reference states (symbols, zones, cursors, mute, labels)',
         'bounds': {'alphabet': [R.render_stmt(s) for s in SIGMA], 'core_alphabet': [R.render_stmt(s) for s in SIGMA_CORE_Q],
                    'depth_full_alphabet': 4 if q else 5, 'depth_core_alphabet': 5 if q else 6,
                    'variants_per_history': 'V0 markers+symbol probes; V1 +label/constant references; V2 +zone probe'},
@@ -55,7 +56,7 @@ def meta(tier):
             '#mute is a counter (n mutes need n unmutes), as the repository\'s own test_muting pins',
         ],
         'floors': {'evaluations': 1000, 'nontrivial': 100, 'statuses': ['OK', 'REJECT'],
-                   'clauses': ['selected', 'rejected-unmatched']},
+                   'clauses': ['selected', 'rejected-unmatched', 'comparison']},
         'nshards': len(SIGMA) * len(SIGMA),
     }
 
@@ -163,6 +164,7 @@ def shard(acc, tier, idx, n):
     full_depth = 4 if q else 5
     core_depth = 5 if q else 6
     # shard = subtree under the first two symbols of the full alphabet; depth 0 and 1 belong to shard 0
+    comparisons(acc, idx, n)
     if idx == 0:
         check_history(acc, ())
         for s in SIGMA:
@@ -193,6 +195,46 @@ def shard(acc, tier, idx, n):
             for s in core:
                 rec_core(hist + (s,))
         rec_core((a, b))
+
+
+CMP_OPERANDS = [('9', 9), ('10', 10), ('$0A', 10), ('0x0a', 10), ('1+1', 2), ('2', 2), ('SA', 1), ('SN', 12), ('0', 0), ('(3-3)', 0), ('b11', 3)]
+CMP_OPS = {'==': lambda a, b: a == b, '!=': lambda a, b: a != b, '>': lambda a, b: a > b, '>=': lambda a, b: a >= b,
+           '<': lambda a, b: a < b, '<=': lambda a, b: a <= b}
+
+
+def comparisons(acc, idx, n):
+    """Conditions compare integers when both sides are numeric (whatever the notation), and a bare expression means != 0."""
+    ctr = 0
+    for (ta, va), (tb, vb) in itertools.product(CMP_OPERANDS, repeat=2):
+        for op, fn in CMP_OPS.items():
+            ctr += 1
+            if ctr % n != idx:
+                continue
+            holds = fn(va, vb)
+            src = f'#define SA 1\n#define SN 12\n    .byte 17\n#if {ta} {op} {tb}\n    .byte 34\n#elif {tb} {op} {ta}\n    .byte 51\n#else\n    .byte 68\n#endif\n    .byte 85\n'
+            second = fn(vb, va)
+            body = [17] + ([34] if holds else [51] if second else [68]) + [85]
+            case = Case(ISA, src)
+            out = acc.run(case)
+            acc.transition()
+            spec = {'expect': 'OK', 'image_hex': bytes(body).hex(), 'condition': f'{ta} {op} {tb}'}
+            msg = judge_expect(spec, [out])
+            if msg:
+                acc.violation([case], spec, f'#if {ta} {op} {tb}: {msg}', [out])
+            acc.judge(clause='comparison', nontrivial_key=('cmp', ta, op, tb))
+    for (ta, va) in CMP_OPERANDS:
+        ctr += 1
+        if ctr % n != idx:
+            continue
+        src = f'#define SA 1\n#define SN 12\n#if {ta}\n    .byte 34\n#else\n    .byte 68\n#endif\n'
+        case = Case(ISA, src)
+        out = acc.run(case)
+        acc.transition()
+        spec = {'expect': 'OK', 'image_hex': '22' if va != 0 else '44', 'condition': ta}
+        msg = judge_expect(spec, [out])
+        if msg:
+            acc.violation([case], spec, f'#if {ta}: {msg}', [out])
+        acc.judge(clause='comparison', nontrivial_key=('bare', ta))
 
 
 def judge(spec, outcomes):
